@@ -638,7 +638,7 @@ def uppercase_percent_encoding(text):
         return text
 
     return re.sub(
-        r'%[a-f0-9][a-f0-9]',
+        r'%[a-fA-F0-9][a-fA-F0-9]',
         lambda match: match.group(0).upper(),
         text)
 
